@@ -396,4 +396,19 @@ def okShift (a : LocP) (k : Int) (ans : Option LocP) : Bool :=
           sortBlocks .plus ((locationBlocks a.1).map (fun b => (((b.1 : Int) + k).toNat, ((b.2 : Int) + k).toNat))) &&
         locationStrand? r.1 == locationStrand? a.1
 
+/-! ### equality -/
+
+/-- two locations are equal iff they are of the same kind (a one-block CompoundInterval is not a SingleInterval),
+    have the same blocks in the same order, the same strand and parents that are equal except location; the second
+    component of the answer reports that equal locations had equal hashes -/
+def okEq (a b : LocP) (ans : Option (Bool × Bool)) : Bool :=
+  let sameKind := match a.1, b.1 with
+    | .single _ _, .single _ _ => true
+    | .compound _, .compound _ => true
+    | .empty, .empty => true
+    | _, _ => false
+  let expected := sameKind && locationBlocks a.1 == locationBlocks b.1 &&
+    locationStrand? a.1 == locationStrand? b.1 && sameParent a.2 b.2
+  ans == some (expected, true)
+
 end BioCantor.Spec
